@@ -86,6 +86,13 @@ QUICK_SPECS = [
     ("q_nul", "1z1z1-", T_NUL),
 ]
 
+# extra named shapes (not part of the default quick family)
+EXTRA_SPECS = [
+    ("m_two_unterm", "1n1-", T_LF),
+    ("m_blank_mid", "1n0n1-", T_LF),
+    ("m_three", "1n1n1-", T_LF),
+]
+
 
 def quick_shapes():
     return [_mk(n, s, t) for n, s, t in QUICK_SPECS]
@@ -137,6 +144,9 @@ def all_shapes(max_lines=5, max_bytes=9):
 
 
 def by_name(name):
+    for n, sp, t in EXTRA_SPECS:
+        if n == name:
+            return _mk(n, sp, t)
     for s in quick_shapes():
         if s.name == name:
             return s
